@@ -66,6 +66,9 @@ def rich_numeric_in_groups(dom):
             return True
         # ... and two monomials over different fluents whose coefficients have <= 2 decimals
         m1, m2 = mono(c[1]), mono(c[2])
+        if c[0] != "=" and m1 is not None and m1[1] != 0 and (m1[1] * 100).denominator == 1 and isinstance(c[2], str) and pddl.is_number(c[2]) \
+                and (Fraction(c[2]) * 100).denominator == 1:
+            return True      # a lone product against a number on the grid (an equality is divided through and rounded: K5)
         return m1 is not None and m2 is not None and m1[0] != m2[0] and m1[1] != 0 and m2[1] != 0 and \
             (m1[1] * 100).denominator == 1 and (m2[1] * 100).denominator == 1
 
